@@ -356,6 +356,9 @@ class GroupSpec(SeqSpec):
         for r, i in call_reg.items():
             if i > done_stop and enter_idx.get(r):
                 fails.append(("spawn-after-stop", "registration %d was made (event %d) after Stop returned (event %d) but its f ran (event %d)" % (r, i, done_stop, enter_idx[r][0])))
+        final_ok = bool(quiesces) and quiesces[-1] == len(evs) - 1
+        if final_ok:
+            fails += self.stuck_calls(evs, regs, stops, enter_idx, exit_idx, call_reg, ret_reg, call_trig, ret_trig, call_stop, ret_stop, cnt)
         if not conclusive:
             return fails
         # (3) every trigger call made while the group runs is followed by a run that begins after it
@@ -387,22 +390,27 @@ class GroupSpec(SeqSpec):
                     need = min(en, cnt(releases.get(r, []), q))
                 if ex < need:
                     fails.append(("run-not-completed", "quiescent at event %d but only %d of %d runs of registration %d returned although %d may return" % (q, ex, en, r, need)))
-        # no call is stuck at the final quiescence point
-        if quiesces and quiesces[-1] == len(evs) - 1:
-            q = quiesces[-1]
-            running = any(cnt(enter_idx.get(r, []), q) > cnt(exit_idx.get(r, []), q) for r in regs)
-            for r in call_reg:
-                if r not in ret_reg:
-                    fails.append(("call-stuck", "registration call %d has not returned at quiescence" % r))
-            for t in call_trig:
-                if t not in ret_trig:
-                    fails.append(("call-stuck", "trigger call %d has not returned at quiescence" % t))
-            for k in call_stop:
-                if k not in ret_stop:
-                    if not stops.get(k, False):
-                        fails.append(("call-stuck", "Stop call %d has not returned at quiescence" % k))
-                    elif not running:
-                        fails.append(("stopandwait-stuck", "StopAndWait call %d has not returned at quiescence although no f is running" % k))
+        return fails
+
+    @staticmethod
+    def stuck_calls(evs, regs, stops, enter_idx, exit_idx, call_reg, ret_reg, call_trig, ret_trig, call_stop, ret_stop, cnt):
+        """no call is stuck at the final quiescence point (all goroutines blocked, log stable): valid
+        even when an earlier wait of the scenario timed out"""
+        fails = []
+        q = len(evs) - 1
+        running = any(cnt(enter_idx.get(r, []), q) > cnt(exit_idx.get(r, []), q) for r in regs)
+        for r in call_reg:
+            if r not in ret_reg:
+                fails.append(("call-stuck", "registration call %d has not returned at quiescence" % r))
+        for t in call_trig:
+            if t not in ret_trig:
+                fails.append(("call-stuck", "trigger call %d has not returned at quiescence" % t))
+        for k in call_stop:
+            if k not in ret_stop:
+                if not stops.get(k, False):
+                    fails.append(("call-stuck", "Stop call %d has not returned at quiescence" % k))
+                elif not running:
+                    fails.append(("stopandwait-stuck", "StopAndWait call %d has not returned at quiescence although no f is running" % k))
         return fails
 
     def stats(self, case, obs, acc):
